@@ -101,6 +101,6 @@ def check(P, rep):
         for e in effects(g):
             if e.kind == 'sigverify':
                 nver += 1
-                rep.check(en in ('approve_messages', 'validate_proof', 'rotate_signers'), 'C01.R5', '%s:verify-site' % en,
+                rep.check(en in ('approve_messages', 'validate_proof', 'rotate_signers') or within_entry(g, e, ('approve_messages', 'validate_proof', 'rotate_signers')), 'C01.R5', '%s:verify-site' % en,
                           'signature verification happens only in the three proof-taking entries', esite(g, e))
     rep.floor('ed25519_verify sites over all entries', nver, 3)
